@@ -11,6 +11,7 @@ PROPERTIES = {
     "C11": ["contracts.c11"],
     "C08": ["contracts.c08"],
     "C07": ["contracts.c07"],
+    "C06": ["contracts.c06"],
     "C19": ["contracts.c19"],
     "C15": ["contracts.c19"],
     "C05": ["contracts.c05", "contracts.c16"],
